@@ -189,8 +189,15 @@ end generic
 /-- ≙ runtime.py:4364-4369: convert to SecInt(1 + bit_length) (the canonical signed/unsigned integer `V`,
 C06), `to_bits(·, l)` there (bits of `V mod 2^l`, C30), convert the bits back -/
 def toBitsPrime (p : Nat) (isSigned : Bool) (x l : Nat) : List Nat :=
-  let v := ((Convert.toInt p isSigned x) % ((2 ^ l : Nat) : Int)).toNat
+  let V := Convert.toInt p isSigned x
+  let U := if isSigned ∧ V < 0 then V + (p : Int) else V      -- `a += (a < 0) * p` for signed fields (repo fix)
+  let v := (U % ((2 ^ l : Nat) : Int)).toNat
   (List.range l).map (fun i => (v >>> i) % 2)
+
+/-- the integer whose bits are extracted: the UNSIGNED representative, for both signedness settings -/
+def toBitsPrimeArg (p : Nat) (isSigned : Bool) (x : Nat) : Int :=
+  let V := Convert.toInt p isSigned x
+  if isSigned ∧ V < 0 then V + (p : Int) else V
 
 /-! ### lifting of small fields -/
 
